@@ -313,4 +313,55 @@ Proof.
   rewrite Hsl. cbn [bind]. reflexivity.
 Qed.
 
+Lemma scan_one_unknown : forall st tag wt payload pref rest,
+  0 < tag < 536870912 -> existsb (Z.eqb tag) (map f_id (md_fields md)) = false ->
+  st_at st = e_tag tag wt ++ payload ++ rest ->
+  0 <= wt < 8 -> payload_ok wt payload pref ->
+  zlen (st_at st) < 4294967296 -> cache_ok st ->
+  scan_one md st = Ok (scanned st tag wt None payload rest pref (st_bitmap st) (st_slots st)).
+Proof.
+  intros st tag wt payload pref rest Hid Hex Hat Hwt Hp Hlen Hc.
+  unfold scan_one. rewrite Hat in *.
+  rewrite (tag_of_record tag wt (payload ++ rest) Hid Hwt Hlen).
+  assert (Hk1 : 1 <= zlen (e_tag tag wt)).
+  { destruct (key_wfv tag wt Hid Hwt) as (W & _). destruct (e_tag tag wt) as [|b0 k0]; [contradiction|].
+    rewrite zlen_cons. pose proof (zlen_nonneg _ k0). lia. }
+  replace (zlen (e_tag tag wt) =? 0) with false by lia.
+  assert (Hnotid : forall lf, In lf (md_fields md) -> (f_id lf =? tag) = false).
+  { intros lf Hin. destruct (Z.eqb_spec (f_id lf) tag) as [E|_]; [|reflexivity].
+    exfalso. assert (existsb (Z.eqb tag) (map f_id (md_fields md)) = true).
+    { apply existsb_exists. exists (f_id lf). split; [apply in_map; exact Hin | lia]. }
+    congruence. }
+  assert (Hlook : (let cached := match st_last st with
+                                 | None => false
+                                 | Some li => match nth_error (md_fields md) li with
+                                              | Some lf => f_id lf =? tag
+                                              | None => false
+                                              end
+                                 end in
+                   if cached then (st_last st, st_last st, st_last_idx st, st_nunk st)
+                   else match find_field md tag with
+                        | None => (None, st_last st, st_last_idx st, st_nunk st + 1)
+                        | Some i0 => (Some i0, Some i0, i0, st_nunk st)
+                        end) = (None, st_last st, st_last_idx st, st_nunk st + 1)).
+  { cbv zeta. rewrite (find_field_unknown nenv md D tag Hid Hex).
+    destruct (st_last st) as [li|]; [|reflexivity].
+    destruct (nth_error (md_fields md) li) as [lf|] eqn:Elf; [|reflexivity].
+    rewrite (Hnotid lf (nth_error_In _ _ Elf)). reflexivity. }
+  cbv zeta in Hlook. rewrite Hlook. cbn [bind].
+  assert (Esk : skipn (Z.to_nat (zlen (e_tag tag wt))) (e_tag tag wt ++ payload ++ rest) = payload ++ rest).
+  { unfold zlen. rewrite Nat2Z.id. apply skipn_app_exact. }
+  rewrite !Esk.
+  assert (Hrem : zlen (e_tag tag wt ++ payload ++ rest) - zlen (e_tag tag wt) = zlen (payload ++ rest)).
+  { rewrite zlen_app. lia. }
+  rewrite Hrem.
+  pose proof (payload_scan wt payload pref rest Hp ltac:(rewrite zlen_app in Hlen; pose proof (zlen_nonneg _ (e_tag tag wt)); lia)) as Hps.
+  cbv zeta in Hps. rewrite Hps. cbn [bind].
+  assert (Efn : firstn (Z.to_nat (zlen payload)) (payload ++ rest) = payload).
+  { unfold zlen. rewrite Nat2Z.id. apply firstn_app_exact. }
+  assert (Esk2 : skipn (Z.to_nat (zlen payload)) (payload ++ rest) = rest).
+  { unfold zlen. rewrite Nat2Z.id. apply skipn_app_exact. }
+  rewrite !Efn, !Esk2. reflexivity.
+Qed.
+
 End ScanOne.
